@@ -1247,7 +1247,38 @@ pub fn run(tier: Tier, caps: &Caps) -> Vec<FamilyReport> {
     out
 }
 
+/// C01: outbound PUBLISH packets whose remaining length lies on either side of every variable-byte boundary
+/// (1/2, 2/3 and 3/4 bytes), at every QoS, strictly decoded: whole packets with exact remaining length.
+fn c01_cases(tier: Tier) -> Vec<PubCase> {
+    pub_cases(tier).into_iter().filter(|c| c.payload_len >= 120 && c.tx == c.payload_len + 64).collect()
+}
+
+fn relabel_c01(mut o: CaseOut) -> CaseOut {
+    for v in o.viol.iter_mut() {
+        if let Some(rest) = v.0.strip_prefix("C09:") {
+            v.0 = format!("C01:{}", rest);
+        }
+    }
+    o
+}
+
+pub fn run_c01(tier: Tier, caps: &Caps) -> Vec<FamilyReport> {
+    let pc = c01_cases(tier);
+    vec![sweep(
+        "C01-remaining-lengths-across-every-variable-byte-boundary",
+        "C01",
+        pc.len() as u64,
+        caps,
+        json!({"cases": pc.len(), "dimensions": "QoS 0 / 1 / 2 PUBLISH with payload lengths putting the remaining length on both sides of the 1/2, 2/3 and 3/4 byte boundaries (up to 2 097 153 bytes of payload in a transmit buffer 64 bytes larger), decoded strictly by the reference decoder"}),
+        &|i| relabel_c01(eval_pub(&pc[i as usize])),
+        &|i| serde_json::to_value(&pc[i as usize]).unwrap(),
+    )]
+}
+
 pub fn replay(name: &str, case: &Value) -> Option<CaseOut> {
+    if name.starts_with("C01-remaining-lengths") {
+        return Some(relabel_c01(eval_pub(&serde_json::from_value(case.clone()).ok()?)));
+    }
     Some(match name {
         "C09-connect" => eval_connect(&serde_json::from_value(case.clone()).ok()?),
         "C09-publish" => eval_pub(&serde_json::from_value(case.clone()).ok()?),
